@@ -3,6 +3,8 @@ import HL.Spec.BalanceSpec
 import HL.Lemmas.Dec
 import HL.Lemmas.Balance
 import HL.Lemmas.AccountBalance
+import HL.Lemmas.DecString
+import HL.Model.HoverText
 
 /-!
   C20 "Hover figures are exact aggregates" — the arithmetic core: account balances and the
@@ -127,5 +129,44 @@ theorem counts_exact (txs : List Transaction) (payee name value : Bytes) :
     have := foldl_count (fun t : Tag => (decide (t.name = name) && decide (t.value = value))) (allTags txs) 0
     simp only [Nat.zero_add] at this
     rw [← this]
+
+/-! ### the figures as printed -/
+
+/-- `%d` of a count reads back as that count. -/
+theorem count_printed_exact (n : Nat) : Dec.parseNat (Dec.natDigits n) = some n := by
+  rw [Num.natDigits_eq, Num.parseNat_digits _ (Num.digitsOfNat_ne_nil n), Num.natOf_digitsOfNat]
+
+/-- **account_hover_figures.**  The figure the account hover prints for a commodity
+    (`Decimal.String()` of the entry of the balance map) denotes exactly the sum of all amounts
+    explicitly posted to the account in that commodity. -/
+theorem account_hover_figures (txs : List Transaction) (acct c : Bytes) (v : Dec)
+    (h : lookup (accountBalances txs) acct c = some v) (hexp : Dec.int32Min ≤ v.exp) :
+    (Dec.ofString (Dec.toString v)).map Dec.toRat = some (accountSum (txs.map image) acct c) := by
+  rw [Num.toString_roundtrip v hexp]
+  have := (balances_exact txs acct c).2
+  rw [h] at this
+  simpa using this
+
+/-- **amount_hover_exact.**  Hovering an amount shows `Decimal.String()` of its quantity (and of
+    its cost), which denotes exactly the quantity parsed. -/
+theorem amount_hover_exact (a : Amount) (cost : Option Cost) (hexp : Dec.int32Min ≤ a.quantity.exp) :
+    (∃ rest, HoverText.amountHover a cost =
+        bs "**Amount:** " ++ Dec.toString a.quantity ++ bs " " ++ a.commodity.symbol ++ rest) ∧
+    (Dec.ofString (Dec.toString a.quantity)).map Dec.toRat = some (Dec.toRat a.quantity) ∧
+    (∀ k, cost = some k → Dec.int32Min ≤ k.amount.quantity.exp →
+      (∃ pre, HoverText.amountHover a cost = pre ++ Dec.toString k.amount.quantity ++ bs " " ++ k.amount.commodity.symbol) ∧
+      (Dec.ofString (Dec.toString k.amount.quantity)).map Dec.toRat = some (Dec.toRat k.amount.quantity)) := by
+  refine ⟨⟨_, rfl⟩, Num.toString_roundtrip _ hexp, ?_⟩
+  intro k hk hke
+  subst hk
+  refine ⟨?_, Num.toString_roundtrip _ hke⟩
+  unfold HoverText.amountHover
+  cases ht : k.isTotal with
+  | true =>
+    exact ⟨bs "**Amount:** " ++ Dec.toString a.quantity ++ bs " " ++ a.commodity.symbol ++ bs "\n\n**Total cost:** @@ ",
+      by simp only [ht, if_true, List.append_assoc]⟩
+  | false =>
+    exact ⟨bs "**Amount:** " ++ Dec.toString a.quantity ++ bs " " ++ a.commodity.symbol ++ bs "\n\n**Unit cost:** @ ",
+      by simp only [ht, Bool.false_eq_true, if_false, List.append_assoc]⟩
 
 end HL.Props.C20
